@@ -1814,7 +1814,7 @@ static XalanDOMString   s_staticSlashString(XalanMemMgrs::getDummyMemMgr());
 
 const XalanDOMChar      ElemNumber::s_atString[] =
 {
-    XalanUnicode::charAmpersand,
+    XalanUnicode::charCommercialAt,
     0
 };
 
